@@ -1,0 +1,25 @@
+//go:build verif
+
+package netmap
+
+import (
+	"github.com/nspcc-dev/neo-go/pkg/crypto/keys"
+	"github.com/nspcc-dev/neo-go/pkg/network/payload"
+	"github.com/nspcc-dev/neo-go/pkg/util"
+	netmaprpc "github.com/nspcc-dev/neofs-contract/rpc/netmap"
+)
+
+// VerifNewAddNode builds an AddNode notary event for the verification harness.
+func VerifNewAddNode(node netmaprpc.NetmapNode2, nr *payload.P2PNotaryRequest) AddNode {
+	return AddNode{Node: node, notaryRequest: nr}
+}
+
+// VerifNewUpdatePeer builds an UpdatePeer notary event for the verification harness.
+func VerifNewUpdatePeer(key *keys.PublicKey, nr *payload.P2PNotaryRequest) UpdatePeer {
+	return UpdatePeer{publicKey: key, notaryRequest: nr}
+}
+
+// VerifNewEpoch builds a NewEpoch notification for the verification harness.
+func VerifNewEpoch(num uint64, txHash util.Uint256) NewEpoch {
+	return NewEpoch{num: num, txHash: txHash}
+}
